@@ -349,3 +349,56 @@ func init() {
 			})
 	})
 }
+
+func init() {
+	// F13 (genuine defect, fixed in /repo 433780d): inBodyIM read p.context.DataAtom for <input>/<select> in fragment
+	// mode although ParseFragment accepts a nil context (every other use tests p.context != nil): the parser's recover
+	// turned the nil dereference into an error and no tree was returned.
+	// F14 (genuine defect, fixed in /repo d98801f): Render refused a tree Parse had produced, because the "void element
+	// has child nodes" test ignored the namespace (<svg><source>x).
+	ExtraClause("C41", "Also: every dereference of parser.context is reached only under p.context != nil; render1 refuses a void element with children only in the HTML namespace.")
+	RegisterExtra("C41", func(c *Ctx) {
+		fv := c.P.Field("html.parser.context")
+		if fv == nil {
+			c.Undecided("nil-guarded", "html.parser.context", "field not found")
+			return
+		}
+		n := 0
+		for _, fn := range c.P.All {
+			if fn.Pkg == nil || fn.Pkg.Pkg.Path() != "golang.org/x/net/html" {
+				continue
+			}
+			for _, b := range fn.Blocks {
+				for _, in := range b.Instrs {
+					ld, ok := in.(*ssa.UnOp)
+					if !ok || ld.Op != token.MUL || FieldOfAddr(ld.X) != fv || ld.Referrers() == nil {
+						continue
+					}
+					for _, r := range *ld.Referrers() {
+						deref := false
+						switch x := r.(type) {
+						case *ssa.FieldAddr:
+							deref = x.X == ssa.Value(ld)
+						case *ssa.Field:
+							deref = x.X == ssa.Value(ld)
+						case *ssa.UnOp:
+							deref = x.Op == token.MUL && x.X == ssa.Value(ld)
+						}
+						if !deref {
+							continue
+						}
+						n++
+						a := Atom{Kind: NE, L: Lin{Coef: map[string]int64{Term(ld): 1}}}
+						c.Check(GuardedByPaths(fn, [][]Atom{{a}}, []ssa.Instruction{r}), "nil-guarded",
+							FnName(fn)+": parser.context is dereferenced only under a test that it is not nil", r.Pos(), "",
+							"`"+DescribeInstr(r)+"` is reachable with "+Term(ld)+" == nil (ParseFragment accepts a nil context)")
+					}
+				}
+			}
+		}
+		if n == 0 {
+			c.Undecided("nil-guarded", "html.parser.context", "no dereference found")
+		}
+		c.WdGuardAny("html.render1", c.UnderFact(Returns(), "html.voidElements[$1.Data]", true), []string{`$1.Namespace == ""`}, []string{"$1.FirstChild == nil"})
+	})
+}
